@@ -9,6 +9,15 @@ From M Require FmtModel.
 From M Require GFmt.
 Import ListNotations.
 
+Module T_number_to_str_bounded. Import BufProofs. Local Open Scope bool_scope. Local Open Scope Z_scope.
+Import FmtModel GFmt BufModel. Local Open Scope bool_scope. Local Open Scope Z_scope.
+Theorem C15_number_to_str_bounded :
+  forall bits unit len,
+  0 <= len -> snd (number_to_str bits unit len) = false.
+Proof. exact (@BufProofs.number_to_str_bounded). Qed.
+End T_number_to_str_bounded.
+Definition C15_number_to_str_bounded := @T_number_to_str_bounded.C15_number_to_str_bounded.
+
 Module T_number_to_str_fixed_bounded. Import BufProofs. Local Open Scope bool_scope. Local Open Scope Z_scope.
 Import FmtModel GFmt BufModel. Local Open Scope bool_scope. Local Open Scope Z_scope.
 Theorem C15_number_to_str_fixed_bounded :
@@ -50,14 +59,25 @@ Proof. exact (@FpStr.float_to_str_bounded). Qed.
 End T_float_to_str_bounded.
 Definition C15_float_to_str_bounded := @T_float_to_str_bounded.C15_float_to_str_bounded.
 
-Module T_fp_to_str_len0_refuted. Import FpStr. Local Open Scope bool_scope. Local Open Scope Z_scope.
+Module T_fp_to_str_len0. Import FpStr. Local Open Scope bool_scope. Local Open Scope Z_scope.
 Import BufModel. Local Open Scope Z_scope.
-Theorem C15_fp_to_str_len0_refuted :
+Theorem C15_fp_to_str_len0 :
   forall text,
-  let '(_, _, _, reads_unwritten) := fp_to_str text 0 in reads_unwritten = true.
-Proof. exact (@FpStr.fp_to_str_len0_refuted). Qed.
-End T_fp_to_str_len0_refuted.
-Definition C15_fp_to_str_len0_refuted := @T_fp_to_str_len0_refuted.C15_fp_to_str_len0_refuted.
+  fp_to_str text 0 = ([], false, 0, false).
+Proof. exact (@FpStr.fp_to_str_len0). Qed.
+End T_fp_to_str_len0.
+Definition C15_fp_to_str_len0 := @T_fp_to_str_len0.C15_fp_to_str_len0.
+
+Module T_fp_to_str_all. Import FpStr. Local Open Scope bool_scope. Local Open Scope Z_scope.
+Import BufModel. Local Open Scope Z_scope.
+Theorem C15_fp_to_str_all :
+  forall text len,
+  0 <= len ->
+  let '(s, nul, r, reads_unwritten) := fp_to_str text len in
+  Z.of_nat (length s) + (if nul then 1 else 0) <= len /\ (nul = true <-> 0 < len) /\ r = Z.of_nat (length s) /\ reads_unwritten = false.
+Proof. exact (@FpStr.fp_to_str_all). Qed.
+End T_fp_to_str_all.
+Definition C15_fp_to_str_all := @T_fp_to_str_all.C15_fp_to_str_all.
 
 Module T_int2str_exact. Import IntFmtProofs. Local Open Scope bool_scope. Local Open Scope Z_scope.
 Import FmtModel. Local Open Scope Z_scope.
